@@ -296,7 +296,8 @@ Fixpoint send_iso_sdus (h maxp seq : Z) (sdus : list bytes) : list (option (list
   end.
 
 (* __bytes__: ts_flag << 14 | pb_flag << 12 | handle; optional 'I' time stamp; optional 'HH'
-   sequence number and iso_sdu_length | packet_status_flag << 15 *)
+   sequence number and iso_sdu_length | packet_status_flag << 14 (two-bit flag; from_bytes reads
+   (sdu_info >> 14) & 0b11 and keeps 12 bits of the length) *)
 Definition u32_ok (v : Z) : bool := (0 <=? v) && (v <? 4294967296).
 Definition le32 (v : Z) : bytes := [v mod 256; (v / 256) mod 256; (v / 65536) mod 256; v / 16777216].
 Definition iso_hdr (ts pb handle : Z) : Z := Z.lor (Z.lor (Z.shiftl ts 14) (Z.shiftl pb 12)) handle.
@@ -308,7 +309,7 @@ Definition iso_to_bytes (p : iso) : option bytes :=
   let info :=
     match i_seq p, i_sdu_len p, i_psf p with
     | Some s, Some l, Some f =>
-        let w := Z.lor l (Z.shiftl f 15) in
+        let w := Z.lor l (Z.shiftl f 14) in
         if u16_ok s && u16_ok w then Some (le16 s ++ le16 w) else None
     | _, _, _ => Some []
     end in
@@ -342,7 +343,7 @@ Definition iso_from_bytes (bs : bytes) : option iso :=
             | s0 :: s1 :: w0 :: w1 :: r2 =>
                 let w := rd16 w0 w1 in
                 Some (mkIso handle pb len ts (Some (rd16 s0 s1)) (Some (Z.land w 4095))
-                            (Some (Z.land (Z.shiftr w 15) 1)) r2)
+                            (Some (Z.land (Z.shiftr w 14) 3)) r2)
             | _ => None
             end
           else Some (mkIso handle pb len ts None None None r1)
@@ -361,3 +362,5 @@ Definition ev_sum (e : asm_ev) : Z * Z * Z :=
 Definition bytes_sum (b : bytes) := (firstn 13 b, blen b, digest b).
 Definition iso_sum (p : iso) :=
   (i_handle p, i_pb p, i_len p, (i_seq p, i_sdu_len p, i_psf p), (blen (i_frag p), digest (i_frag p))).
+Definition iso_full (p : iso) :=
+  (i_handle p, i_pb p, i_len p, i_ts p, (i_seq p, i_sdu_len p, i_psf p), i_frag p).
